@@ -573,6 +573,8 @@ func (f *sfile) GetXattr(attr string) ([]byte, error) {
 	data := b.r.bytesN(b.r.intn(40))
 	if b.bigXattr > 0 {
 		data = b.r.bytesN(b.bigXattr)
+	} else if b.bigXattr < 0 {
+		data = nil
 	}
 	b.mu.Unlock()
 	b.okTape(nil, [][]byte{data}, nil)
